@@ -198,6 +198,7 @@ class Program:
         self.parse_failures: list[str] = []
         self.locals_recovered = 0  # locals renamed back to their reference names (see localnames.py)
         self.helpers_inlined = 0   # private helpers absent from the reference tree inlined at their call sites (see normalize.py)
+        self.spellings_restored = 0  # mirrored comparisons / expanded aug-assigns / inverted ifs put back into the reference spelling
         self.temps_inlined = 0     # temporaries absent from the reference tree replaced by the expression they alias
 
     # ------------------------------------------------------------------ loading
@@ -220,6 +221,7 @@ class Program:
                     tree = ast.parse(src, filename=path)
                     prog.locals_recovered += localnames.recover(tree, rel)
                     prog.helpers_inlined += normalize.inline_new_helpers(tree, rel)
+                    prog.spellings_restored += normalize.restore_spellings(tree, rel)
                 except (SyntaxError, UnicodeDecodeError, OSError) as exc:
                     prog.parse_failures.append(f"{rel}: {exc}")
                     continue
